@@ -280,6 +280,56 @@ def _worker_env(prop, w):
     return env
 
 
+def tagged_pids(tag):
+    """pids of every live process (other than this one) that carries ZTV_RUN_TAG=tag in its environment"""
+    needle = ('ZTV_RUN_TAG=%s' % tag).encode()
+    found = []
+    for name in os.listdir('/proc'):
+        if not name.isdigit() or int(name) == os.getpid():
+            continue
+        try:
+            with open('/proc/%s/environ' % name, 'rb') as f:
+                if needle in f.read().split(b'\0'):
+                    found.append(int(name))
+        except OSError:
+            pass
+    return found
+
+
+def kill_tagged(tag):
+    """no process started by this check (worker, runner, layer subprocess, orphan) outlives it"""
+    for _ in range(3):
+        pids = tagged_pids(tag)
+        if not pids:
+            return
+        for pid in pids:
+            try:
+                os.kill(pid, 9)
+            except OSError:
+                pass
+        time.sleep(0.2)
+
+
+def _watchdog(tag, limit, state):
+    import threading
+
+    def loop():
+        while not state.get('stop'):
+            time.sleep(5)
+            try:
+                n = len(tagged_pids(tag))
+            except Exception:  # noqa: BLE001
+                continue
+            state['peak'] = max(state.get('peak', 0), n)
+            if n > limit:
+                state['tripped'] = n
+                kill_tagged(tag)
+                return
+    t = threading.Thread(target=loop, daemon=True)
+    t.start()
+    return t
+
+
 def out_dir():
     """where evidence and new replay files go (ZTV_OUT redirects them, e.g. while a seeded change is evaluated)"""
     return os.environ.get('ZTV_OUT') or boot.VERIF_DIR
@@ -385,7 +435,17 @@ def main(argv=None):
         traceback.print_exc()
         return 2
 
+    tag = '%s-%d-%d' % (prop.id, os.getpid(), int(t0 * 1000))
+    os.environ['ZTV_RUN_TAG'] = tag
+    import atexit
+    import signal
+    atexit.register(kill_tagged, tag)
+    for signum in (signal.SIGTERM, signal.SIGHUP, signal.SIGINT):
+        signal.signal(signum, lambda *a: (kill_tagged(tag), os._exit(2)))
+    wd_state = {}
+    _watchdog(tag, int(os.environ.get('ZTV_MAX_PROCS', '700')), wd_state)
     tmpdir = tempfile.mkdtemp(prefix='ztv-%s-' % prop.id)
+    os.environ.setdefault('ZTV_TMP', tmpdir)     # generated worlds live (and die) with the check's scratch directory
     procs = []
     nworkers = NWORKERS
     py = sys.executable
@@ -447,6 +507,11 @@ def main(argv=None):
     else:
         harness_errors.append('replay worker produced no result')
 
+    wd_state['stop'] = True
+    kill_tagged(tag)
+    if wd_state.get('tripped'):
+        harness_errors.append('process watchdog: %d live processes, everything stopped (inconclusive)'
+                              % wd_state['tripped'])
     import shutil
     shutil.rmtree(tmpdir, ignore_errors=True)
 
